@@ -50,6 +50,11 @@ type Options struct {
 	Plugins     map[string]integration.NewFunc // integration plugins to register (name -> ctor)
 	Settings    map[string]interface{}         // extra viper settings
 	Quiet       bool
+	// OfferDelay: how long the simulated master waits after a REVIVE before it sends the offers
+	// (0 = at once).  A real master answers after milliseconds to seconds; with 0 the OFFERS event
+	// can be handled before acquireTasks listens for the verdict of resourceOffers, which the core
+	// then drops (non-blocking send) - see the C02 report.
+	OfferDelay time.Duration
 }
 
 // Outcome of one simulated executor command.
@@ -356,7 +361,11 @@ func (s *Sim) Call(ctx context.Context, call *scheduler.Call) (mesos.Response, e
 		return &resp{dec: &chanDecoder{ch: ch, ctx: ctx}}, nil
 	case scheduler.Call_REVIVE:
 		s.record(CallRecord{Type: "REVIVE", FwID: fw})
-		go s.SendOffers()
+		if d := s.Opts.OfferDelay; d > 0 {
+			go func() { time.Sleep(d); s.SendOffers() }()
+		} else {
+			go s.SendOffers()
+		}
 	case scheduler.Call_ACCEPT:
 		acc := call.GetAccept()
 		rec := CallRecord{Type: "ACCEPT", FwID: fw}
